@@ -36,7 +36,7 @@ func c17Gen(seed uint64, tier string) any {
 	if r.Chance(2, 3) {
 		sc.Acting = HostSpec{Custom: true, CustomTok: "XX", HandlerPlan: strings.Repeat("v", 64), StLog: true}
 		if r.Chance(1, 3) {
-			sc.Acting.HandlerPlan = randPlan(r, 24)
+			sc.Acting.HandlerPlan = randPlanFaulty(r, 24)
 		}
 		o.CustomTok = "XX"
 	}
@@ -211,6 +211,8 @@ func c17Exec(raw json.RawMessage, res *RunResult) {
 						wantErr = "host: handler failed"
 					case 'n':
 						wantErr = "nil"
+					case 'p':
+						wantErr = "VM内部错误"
 					}
 				}
 				if wantErr != "" {
